@@ -140,6 +140,7 @@ def run(ctx):
     for v in core.parse_printed_json(res, tag="REJECT"):
         groups.setdefault((samples[v["idx"]]["kind"], v["why"]), []).append(v["idx"])
     embedded_lc_phase(ctx)
+    pcap_phase(ctx)
     for (kind, why), idxs in sorted(groups.items()):
         s = samples[idxs[0]]
         ctx.violation(f"vbptc/{kind}/{why}", f"VBPTC {kind}: {why} fails for {len(idxs)} of the samples, first message (packed) {s['msg']}",
@@ -193,6 +194,87 @@ def embedded_lc_run(args):
         ev.append({"key": key, "lcss": lcss, "pi": bool(pi), "g": [key, g], "k": k, "delivered": out is not None,
                    "same": out is not None and out.as_bits()[:72] == sent72, "nfrag": len(held) // 32, "err": err})
     return {"ev": ev}
+
+
+def pcap_run(args):
+    """worker: one generated capture file through the real PcapTool.iter_pcap with a recording callback"""
+    seed, path, pkts, cfg = args
+    import contextlib
+    import io
+    core.setup_repo_path()
+    from okdmr.dmrlib.tools.pcap_tool import PcapTool
+    from scapy.layers.inet import IP, UDP
+    from scapy.layers.inet6 import IPv6
+    from scapy.layers.l2 import Ether, Dot3, LLC
+    from scapy.utils import wrpcap
+    frames = []
+    for n, p in enumerate(pkts):
+        udp = UDP(sport=p["sport"], dport=p["dport"])
+        if p["load"]:
+            udp = udp / (n + 1).to_bytes(2, "big")              # the payload is the packet's index
+        net = IP(src=p["src"], dst="10.0.0.9") if p["ip4"] else IPv6(src="fe80::1", dst="fe80::2")
+        if p["ether"]:
+            frames.append(Ether(src="02:00:00:00:00:01", dst="02:00:00:00:00:02") / net / udp)
+        else:
+            frames.append(Dot3(src="02:00:00:00:00:01", dst="02:00:00:00:00:02") / LLC() / net / udp)   # an 802.3 / LLC frame
+    wrpcap(path, frames)
+    calls, err = [], ""
+    raising = {n + 1 for n, p in enumerate(pkts) if p["raises"]}
+
+    def cb(data, packet):
+        i = int.from_bytes(bytes(data)[:2], "big")
+        calls.append(i)
+        if i in raising:
+            raise RuntimeError("analysis of one packet failed")
+    sink = io.StringIO()
+    try:
+        with contextlib.redirect_stdout(sink), contextlib.redirect_stderr(sink):
+            stats = PcapTool.iter_pcap(files=[path], callback=cb, ports_whitelist=list(cfg["pw"]), ports_blacklist=list(cfg["pb"]),
+                                       ip_whitelist=list(cfg["ipw"]))
+    except Exception as ex:  # noqa
+        stats, err = {}, type(ex).__name__
+    os.remove(path)
+    return {"pkts": pkts, "ipw": cfg["ipw"], "pw": cfg["pw"], "pb": cfg["pb"], "calls": calls, "err": err,
+            "stats": sorted([int(k), int(v)] for k, v in stats.items())}
+
+
+def pcap_phase(ctx):
+    """growth beyond the statement (spec/PcapFilter.tla): the capture iterator every analysis tool of the repository starts from"""
+    res = core.run_tlc(ctx, "MC_PcapFilter", "MC_PcapFilter.cfg", timeout=900, workers=8)
+    ctx.note("pcap_filter_design", res.violated or f"all facts hold over {res.distinct} captures x filter settings")
+    if res.violated:
+        ctx.outside(f"capture iterator: the design model violates {res.violated}")
+    jobs = []
+    for i in range(120 if ctx.quick else 2500):
+        r = ctx.rng
+        ports = [r.choice([1, 2, 3, 50000, 62006, 65535]) for _ in range(4)]
+        pkts = []
+        for _ in range(r.randrange(0, 9)):
+            k = r.random()
+            pkts.append({"ether": k >= 0.08, "udp": True, "ip4": not 0.08 <= k < 0.2, "load": not 0.2 <= k < 0.32,
+                         "src": r.choice(["10.0.0.1", "10.0.0.2", "10.0.0.3"]), "sport": r.choice(ports), "dport": r.choice(ports),
+                         "raises": r.random() < 0.1})
+        pick = lambda pool, pr: sorted({r.choice(pool) for _ in range(r.randrange(1, 3))}) if r.random() < pr else []
+        cfg = {"ipw": pick(["10.0.0.1", "10.0.0.2"], 0.4), "pw": pick(ports, 0.4), "pb": pick(ports, 0.4)}
+        jobs.append((ctx.seed * 31 + i, os.path.join(ctx.rundir, f"capture_{i}.pcap"), pkts, cfg))
+    with Pool(core.NCPU) as pool:
+        cases = pool.map(pcap_run, jobs, chunksize=8)
+    ncalls = sum(len(c["calls"]) for c in cases)
+    for c in cases:
+        ctx.count(core.digest(["pcap", c["pkts"], c["ipw"], c["pw"], c["pb"], c["calls"]]))
+    ctx.note("pcap_filter_captures", {"files": len(cases), "callback_calls": ncalls})
+    if ncalls < len(cases) // 2:
+        raise core.MachineryError("the capture phase hardly ever reached the callback")
+    path = os.path.join(ctx.rundir, "c09_pcap.json")
+    json.dump({"cases": cases}, open(path, "w"))
+    res = core.run_tlc(ctx, "MC_PcapFilter", "MC_PcapFilter_judge.cfg", env={"DATA_FILE": path}, timeout=900)
+    if not res.ok or res.distinct < len(cases):
+        raise core.MachineryError(f"TLC did not judge all captures ({res.distinct} < {len(cases)})")
+    groups = {}
+    for v in core.parse_printed_json(res, tag="DRIFT"):
+        groups.setdefault(v["why"], []).append(v["idx"])
+    for why, idxs in sorted(groups.items()):
+        ctx.model_drift(f"capture iterator: {why} for {len(idxs)} capture files, first {json.dumps({k: cases[idxs[0]][k] for k in ('pkts', 'ipw', 'pw', 'pb', 'calls', 'stats')})[:600]}")
 
 
 def embedded_lc_phase(ctx):
